@@ -231,8 +231,15 @@ def tdOf (path name : Str) (withUuid : Bool) : TypeDesc :=
 def findStructKind (fd : FileDesc) (kind : String) (name : Str) : Option StructDesc :=
   if kind == "s" then lookStruct fd name else if kind == "u" then lookUnion fd name else lookException fd name
 
+/-- call-history ops: `HM`/`HU` are `M`/`U` asked again after other Marshal calls — in the model Marshal and
+Unmarshal are functions of their argument, so the answers are the ones of `M`/`U` -/
+def histAlias : List String → List String
+  | "HM" :: r => "M" :: r
+  | "HU" :: r => "U" :: r
+  | t => t
+
 def step (st : St) (line : String) : St × String :=
-  match VL.toks line with
+  match histAlias (VL.toks line) with
   | "D" :: r =>
     match pFile r with
     | some (f, []) => (st, "ok " ++ dump sFileDescriptor (gFile (describe f)))
